@@ -17,7 +17,9 @@ Inductive item : Type :=
 | Bs.                              (* backspace *)
 
 (* rw_style: the attribute bits of the preamble address code: at indent 0 the full attribute 0..15 (colour x underline,
-   14 italics, 15 italics underline); at an indent > 0 only the underline bit (0 / 1) exists *)
+   14 italics, 15 italics underline) or, wave 7, 16 / 17 = the INDENT form of the code with indent 0 (white, optional
+   underline: the code pycaption's SCCWriter uses for column 0, second byte 0x50 / 0x70); at an indent > 0 only the
+   underline bit (0 / 1) exists *)
 Record row : Type := mkRow { rw_row : Z; rw_indent : Z; rw_tab : Z; rw_style : Z; rw_items : list item }.
 Definition is_italic_attr (a : Z) : bool := (a =? 14) || (a =? 15).
 Definition rw_ital (r : row) : bool := (rw_indent r =? 0) && is_italic_attr (rw_style r).
@@ -234,7 +236,7 @@ Definition cell_vis (c : cell) : bool := match c with Cell ch _ => negb (ch =? 3
 Definition row_ok (r : row) : bool :=
   let cs := cells_of r in
   (1 <=? rw_row r) && (rw_row r <=? 15) && mem (rw_indent r) indents_608 && (0 <=? rw_tab r) && (rw_tab r <=? 3)
-  && (0 <=? rw_style r) && (rw_style r <? 16) && ((rw_indent r =? 0) || (rw_style r <=? 1))
+  && (0 <=? rw_style r) && (rw_style r <? 18) && ((rw_indent r =? 0) || (rw_style r <=? 1))
   && items_ok (rw_items r) None
   && existsb cell_vis cs
   && negb (match cs with c :: _ => cell_space c | [] => true end)
@@ -303,7 +305,7 @@ Fixpoint bs_clear_of_mid (its : list item) (st : list bool) : bool :=
 Definition row_ok_wide (r : row) : bool :=
   let cs := cells_of r in
   (1 <=? rw_row r) && (rw_row r <=? 15) && mem (rw_indent r) indents_608 && (0 <=? rw_tab r) && (rw_tab r <=? 3)
-  && (0 <=? rw_style r) && (rw_style r <? 16) && ((rw_indent r =? 0) || (rw_style r <=? 1))
+  && (0 <=? rw_style r) && (rw_style r <? 18) && ((rw_indent r =? 0) || (rw_style r <=? 1))
   && items_ok_wide (rw_items r) None && bs_clear_of_mid (rw_items r) []
   && existsb cell_vis cs
   && (rw_indent r + rw_tab r + Z.of_nat (length cs) <=? 32).
